@@ -20,9 +20,10 @@ FAST_ENV = {"ASAN_OPTIONS": vlib.ASAN_ENV + ":symbolize=0"}
 CFG = {
     "quick": dict(mc=["MC_ConfigLoad_docs.cfg", "MC_ConfigLoad_hist.cfg", "MC_ConfigLoad_p.cfg"],
                   gen=["Gen_ConfigLoad_hist.cfg", "Gen_ConfigLoad_two.cfg", "Gen_ConfigLoad_p.cfg", "Gen_ConfigLoad_docs.cfg"],
-                  nhist=14, steps=40),
-    "thorough": dict(mc=["MC_ConfigLoad_docs_t.cfg", "MC_ConfigLoad_hist_t.cfg", "MC_ConfigLoad_p_t.cfg"],
-                     gen=["Gen_ConfigLoad_docs_t.cfg", "Gen_ConfigLoad_hist_t.cfg", "Gen_ConfigLoad_p_t.cfg"],
+                  nhist=10, steps=40),
+    "thorough": dict(mc=["MC_ConfigLoad_docs_t.cfg", "MC_ConfigLoad_hist_t.cfg", "MC_ConfigLoad_hist3_t.cfg", "MC_ConfigLoad_p_t.cfg"],
+                     gen=["Gen_ConfigLoad_hist_t.cfg", "Gen_ConfigLoad_two_t.cfg", "Gen_ConfigLoad_p_t.cfg", "Gen_ConfigLoad_hist3_t.cfg",
+                          "Gen_ConfigLoad_docs_t.cfg"],
                      nhist=80, steps=70),
 }
 LISTKEYS = ("uni", "rel", "vars", "items", "els", "paths")
@@ -535,8 +536,9 @@ def render_texts(hists, tag):
     return res
 
 
-def binding_b(ck, exe, n, steps, nt, env):
-    rng = ck.rng
+def binding_b(rng, exe, n, steps, env):
+    """runs beside binding A in a thread: returns what is to be added to the Check (no shared state is touched)"""
+    out = {"violations": [], "nt": set(), "transitions": 0, "good": 0, "n": 0, "notes": {}, "sample": None}
     hists = [Hist(rng, steps).gen() for _ in range(n)] + [gen_path_history(rng, steps) for _ in range(max(2, n // 5))]
     r1 = render_texts(hists, "Trace_ConfigLoad")
     e2 = dict(env)
@@ -544,32 +546,31 @@ def binding_b(ck, exe, n, steps, nt, env):
     recs, _ = vlib.run_driver(exe, script(hists, quiet_prefix=False), env=e2)
     events = vlib.merge_trace(hists, recs)
     ok, matched, tres = vlib.validate_trace("Trace_ConfigLoad", events, cfg="Trace_ConfigLoad.cfg", tag="Trace_ConfigLoad", xss="1g")
-    ck.cov["transitions"] += tres.generated + r1.generated
+    out["transitions"] = tres.generated + r1.generated
     if not ok:
         ok2, matched2, _ = vlib.validate_trace("Trace_ConfigLoad", events, cfg="Trace_ConfigLoad.cfg", tag="Trace_ConfigLoad", xss="1g")
         if not ok2 and matched2 == matched:
             ev = events[matched] if matched < len(events) else None
             beh = hists[ev["b"]][:ev["i"] + 1] if ev else None
-            ck.violation(trace_signature(ev, beh[-1] if beh else None),
-                         {"binding": "B(trace validation)", "part": "x10", "matched_prefix": matched, "rejected_event": ev,
-                          "behaviour": beh, "tlc_tail": tres.out[-1500:]})
+            out["violations"].append((trace_signature(ev, beh[-1] if beh else None),
+                                      {"binding": "B(trace validation)", "part": "x10", "matched_prefix": matched, "rejected_event": ev,
+                                       "behaviour": beh, "tlc_tail": tres.out[-1500:]}))
         else:
             ok = ok2
     bad_b = events[matched]["b"] if (not ok and matched < len(events)) else None
-    good = 0
     for b, h in enumerate(hists):
         if nontrivial_b(h):
-            nt.add("x10b" + common.callkey([{"a": s["a"], "arg": {k: v for k, v in s["arg"].items() if k != "docs"}} for s in h]))
+            out["nt"].add("x10b" + common.callkey([{"a": s["a"], "arg": {k: v for k, v in s["arg"].items() if k != "docs"}} for s in h]))
         if ok or (bad_b is not None and b < bad_b):
-            good += 1
-    ck.cov["traces_validated_against_impl"] += good
-    ck.cov["evaluations"] += len(hists)
+            out["good"] += 1
+    out["n"] = len(hists)
     acts = {}
     for e in events:
         acts[e["a"]] = acts.get(e["a"], 0) + 1
-    ck.notes["x10_trace"] = {"histories": len(hists), "events": len(events), "events_matched": matched, "by_action": acts,
-                             "render_wall_s": round(r1.wall, 1), "validate_wall_s": round(tres.wall, 1)}
-    return hists[0][:6]
+    out["notes"] = {"histories": len(hists), "events": len(events), "events_matched": matched, "by_action": acts,
+                    "render_wall_s": round(r1.wall, 1), "validate_wall_s": round(tres.wall, 1)}
+    out["sample"] = [{"a": s["a"], "arg": {k: v for k, v in s["arg"].items() if k not in ("docs", "uni", "rel")}} for s in hists[0][:6]]
+    return out
 
 
 # ---------------------------------------------------------------------------
@@ -580,11 +581,14 @@ def run_part(ck, tier):
     env = dict(FAST_ENV, VERIF_X10_TMP=tdir)
     mcres = []
 
-    def model_check():
-        for mc in cfg["mc"]:
+    def model_check(mc):
+        try:
             mcres.append((mc, vlib.tlc("MC_ConfigLoad", mc, tag="MC_ConfigLoad-" + mc, workers=max(2, vlib.NCPU // 4), xss="64m")))
-    th = threading.Thread(target=model_check)
-    th.start()
+        except Exception as e:
+            mcres.append((mc, e))
+    mths = [threading.Thread(target=model_check, args=(mc,)) for mc in cfg["mc"]]
+    for t in mths:
+        t.start()
     nt = set()
     samples = []
     exports = {}
@@ -592,22 +596,44 @@ def run_part(ck, tier):
     for t in gths:
         t.start()
     replayed = 0
+    bres = {}
+
+    def traces():
+        try:
+            bres["out"] = binding_b(brng, exe, cfg["nhist"], cfg["steps"], env)
+        except Exception as e:
+            bres["out"] = e
+    import random
+    brng = random.Random(ck.rng.randrange(1 << 30))
+    bth = threading.Thread(target=traces)
+    bth.start()
     try:
         for g, t in zip(cfg["gen"], gths):
             t.join()
             replayed += binding_a(ck, exe, g, nt, samples, *exports[g], env=env)
-        sample_b = binding_b(ck, exe, cfg["nhist"], cfg["steps"], nt, env)
     finally:
-        for t in gths:
+        for t in gths + mths + [bth]:
             t.join()
-        th.join()
-        try:
-            os.rmdir(tdir)
-        except OSError:
-            pass
+    b = bres.get("out")
+    if isinstance(b, Exception) or b is None:
+        raise b if isinstance(b, vlib.MachineryError) else vlib.MachineryError("X10 trace validation: %r" % (b,))
+    for sig, det in b["violations"]:
+        ck.violation(sig, det)
+    nt |= b["nt"]
+    ck.cov["transitions"] += b["transitions"]
+    ck.cov["traces_validated_against_impl"] += b["good"]
+    ck.cov["evaluations"] += b["n"]
+    ck.notes["x10_trace"] = b["notes"]
+    sample_b = b["sample"]
+    try:
+        os.rmdir(tdir)
+    except OSError:
+        pass
     if len(mcres) != len(cfg["mc"]):
         raise vlib.MachineryError("X10 model checking run did not finish")
-    for mc, res in mcres:
+    for mc, res in sorted(mcres, key=lambda x: x[0]):
+        if isinstance(res, Exception):
+            raise vlib.MachineryError("X10 model checking %s: %s" % (mc, res))
         ck.add_tlc(res, "x10 exhaustive " + mc)
     ck.cov["distinct_nontrivial"] = ck.cov.get("distinct_nontrivial", 0) + len(nt)
     ck.cov["samples"] = list(ck.cov.get("samples") or [])[:4] + samples[:1] + [{"impl": "x10 (recorded history)", "calls": sample_b}]
